@@ -15,10 +15,10 @@ Inductive value :=
 (* Each call is a short pipeline of API calls; the outcome lists what each stage returned
    (Err = that stage, or one before it, raised). *)
 Inductive call :=
-| CRound (alpha ign s : list Z) (allowN : bool)
-    (* [ one_hot_encode(s, alpha, ignore=ign) ; characters(that, alpha, allow_N) ] *)
-| CBack (alpha ign : list Z) (X : dna) (allowN : bool)
-    (* [ characters(X, alpha, allow_N) ; one_hot_encode(that, alpha, ignore=ign) ] *)
+| CRound (alpha ign s : list Z) (force allowN : bool)
+    (* [ one_hot_encode(s, alpha, ignore=ign) ; characters(that, alpha, force, allow_N) ] *)
+| CBack (alpha ign : list Z) (X : dna) (force allowN : bool)
+    (* [ characters(X, alpha, force, allow_N) ; one_hot_encode(that, alpha, ignore=ign) ] *)
 | CRcStr (m : list (Z * Z)) (allowN : bool) (s : list Z)
     (* [ reverse_complement(s) ; reverse_complement(that) ] *)
 | CRcTen (m : list (Z * Z)) (X : dna)
@@ -82,7 +82,8 @@ Definition col_01 (A : nat) (c : col) : bool :=
   ((col_sum c =? 1) || (col_sum c =? 0)).
 
 (* every position of x that lies inside a complete chunk [k*step, k*step+size) reappears at
-   the same position of o *)
+   the same position of o.  Every k whose chunk is complete satisfies k*step <= length x, so
+   (step >= 1) k <= length x / step: the enumeration stops there only to keep the numbers small *)
 Definition chunk_point (size step : nat) (x o : dna) : bool :=
   forallb (fun k =>
              if (k * step + size <=? length x)%nat
@@ -90,7 +91,7 @@ Definition chunk_point (size step : nat) (x o : dna) : bool :=
                                     (p <? length o)%nat && col_eqb (nth p o dcol) (nth p x dcol))
                           (seq 0 size)
              else true)
-          (seq 0 (S (length x))).
+          (seq 0 (S (length x / step))).
 
 Definition all_seqs (xs ys : list dna) (R : dna -> dna -> bool) : bool :=
   (length ys =? length xs)%nat &&
@@ -99,7 +100,7 @@ Definition all_seqs (xs ys : list dna) (R : dna -> dna -> bool) : bool :=
 (* ---------- the property ---------- *)
 Definition spec_ok (c : call) (o : outcome) : bool :=
   match c with
-  | CRound alpha ign s allowN =>
+  | CRound alpha ign s force allowN =>
       if alpha_scope alpha ign && forallb is_ascii s then
         if forallb (fun ch => mem ch alpha || mem ch ign) s then
           match o with
@@ -111,7 +112,7 @@ Definition spec_ok (c : call) (o : outcome) : bool :=
           end
         else match o with Err :: _ => true | _ => false end      (* rejected *)
       else true
-  | CBack alpha ign X allowN =>
+  | CBack alpha ign X force allowN =>
       if alpha_scope alpha ign && forallb (col_01 (length alpha)) X
          && (forallb (fun c => col_sum c =? 1) X || (allowN && mem charN ign)) then
         match o with
@@ -159,11 +160,11 @@ Definition stage {A} (f : A -> value) (r : res A) : res value :=
 Definition model_gen (v0_chars v0_unchunk : bool) (c : call) : outcome :=
   let chars := characters_gen v0_chars in
   match c with
-  | CRound alpha ign s allowN =>
+  | CRound alpha ign s force allowN =>
       let e := one_hot_encode alpha ign s in
-      [stage VTen e; stage VStr (do X <- e ;; chars alpha allowN X)]
-  | CBack alpha ign X allowN =>
-      let d := chars alpha allowN X in
+      [stage VTen e; stage VStr (do X <- e ;; chars alpha force allowN X)]
+  | CBack alpha ign X force allowN =>
+      let d := chars alpha force allowN X in
       [stage VStr d; stage VTen (do t <- d ;; one_hot_encode alpha ign t)]
   | CRcStr m allowN s =>
       let r := rc_str m allowN s in
